@@ -56,6 +56,7 @@ type cfg struct {
 	empties    bool // nil / empty-but-non-nil collections
 	bound1     bool // collections carrying an allocbound get exactly one element (as the repo's randomizer does)
 	ptrEmpty   bool // keep non-nil pointers to all-empty values
+	structKeys bool // maps keyed by a struct may get several keys (only the informational "structkeys" stream)
 	maxLen     int
 }
 
@@ -272,6 +273,15 @@ func (c *cfg) randomize(r *vh.Rng, v reflect.Value, depth int, path string, tag 
 		default:
 			l = r.Intn(c.lenAt(depth) + 1)
 		}
+		if mt.Key().Kind() == reflect.Struct {
+			// map[proposalValue]… (agreement crash-recovery state only): msgp orders struct keys field by field,
+			// go-codec by their encoding; out of the property's scope, kept to one key except in "structkeys"
+			if c.structKeys {
+				l = 2 + r.Intn(3)
+			} else if l > 1 {
+				l = 1
+			}
+		}
 		for i := 0; i < l; i++ {
 			mk := reflect.New(mt.Key())
 			// keys are never left zero on purpose (zeroEveryN applies below depth 0 only to values)
@@ -319,6 +329,27 @@ func hasRequired(t reflect.Type) bool {
 	}
 	hasRequiredMemo[t] = res
 	return res
+}
+
+// HasStructKeyMap: t contains a map keyed by a struct type.
+func HasStructKeyMap(t reflect.Type, seen map[reflect.Type]bool) bool {
+	if seen[t] {
+		return false
+	}
+	seen[t] = true
+	switch t.Kind() {
+	case reflect.Map:
+		return t.Key().Kind() == reflect.Struct || HasStructKeyMap(t.Elem(), seen)
+	case reflect.Ptr, reflect.Slice, reflect.Array:
+		return HasStructKeyMap(t.Elem(), seen)
+	case reflect.Struct:
+		for i := 0; i < t.NumField(); i++ {
+			if HasStructKeyMap(t.Field(i).Type, seen) {
+				return true
+			}
+		}
+	}
+	return false
 }
 
 // isEmptyVal is go-codec's recursive emptiness (RecursiveEmptyCheck): zero scalars, zero-length collections and strings,
@@ -381,6 +412,8 @@ func modeCfg(mode string) *cfg {
 		return &cfg{mode: mode, bound1: true, maxLen: 8}
 	case "zero1":
 		return &cfg{mode: mode, zeroEveryN: 3, allSizes: true, bound1: true, maxLen: 6}
+	case "structkeys": // informational only
+		return &cfg{mode: mode, structKeys: true, bound1: true, maxLen: 3}
 	}
 	return nil
 }
@@ -618,6 +651,16 @@ func Run(t *testing.T, pkg string, types []T) {
 				return
 			}
 		}
+		if mode == "structkeys" {
+			// informational: do the two encoders order ≥2 struct keys the same way? (op carries the msgp bytes)
+			em, er := protocol.Encode(obj), protocol.EncodeReflect(obj)
+			verdict := "same"
+			if !bytes.Equal(em, er) {
+				verdict = "differ"
+			}
+			out.Emit(fmt.Sprintf("%s %s %d %s", name, mode, seed, hex.EncodeToString(em)), "INFO struct-key-order "+verdict)
+			return
+		}
 		e1, res := Check(ty, obj)
 		if mode != "raw" && strings.HasPrefix(res, "FAIL decode-") && strings.Contains(res, "length overflow") {
 			// some allocbounds are tiny (e.g. one state-proof type): the same instance again with every bounded
@@ -642,7 +685,7 @@ func Run(t *testing.T, pkg string, types []T) {
 		}
 		return
 	}
-	k := vh.Budget(4, 60) // instances per type and mode
+	k := vh.Budget(8, 40) // instances per type and mode
 	for _, ty := range types {
 		// the zero value first (not an instance of a type with a `required` field: its own decoder rejects it)
 		e1, res := Check(ty, ty.New())
@@ -653,6 +696,11 @@ func Run(t *testing.T, pkg string, types []T) {
 		for _, mode := range Modes {
 			for i := 0; i < k; i++ {
 				one(ty, mode, instSeed(vh.Seed(), ty.Name, mode, i), "")
+			}
+		}
+		if HasStructKeyMap(reflect.TypeOf(ty.New()), map[reflect.Type]bool{}) {
+			for i := 0; i < k; i++ {
+				one(ty, "structkeys", instSeed(vh.Seed(), ty.Name, "structkeys", i), "")
 			}
 		}
 	}
